@@ -296,19 +296,21 @@ Lemma hae_cases n src t lead pli plt ents lc :
   let r := handle_append_entries n src t lead pli plt ents lc in
   (zmem src (peers n) = true /\ term n <= t /\
    (0 < pli -> exists e, nth_error (log n) (Z.to_nat pli - 1) = Some e /\ fst e = plt))
-  \/ (rep_same n (fst r) /\ no_ars (snd r) /\ no_ae (snd r)).
+  \/ (rep_same n (fst r) /\ no_ars (snd r) /\ no_ae (snd r) /\ (role (fst r) = Leader -> role n = Leader)).
 Proof.
   cbv zeta. unfold handle_append_entries.
   destruct (negb (zmem src (peers n))) eqn:Ep; cbn [fst snd].
-  { right. split; [apply rep_same_refl|split; [noars|noae]]. }
+  { right. split; [apply rep_same_refl|split; [noars|split; [noae|auto]]]. }
   apply negb_false_iff in Ep.
   destruct (t <? term n) eqn:Et; cbn [fst snd].
-  { right. split; [apply rep_same_refl|split; [noars|noae]]. }
+  { right. split; [apply rep_same_refl|split; [noars|split; [noae|auto]]]. }
   set (n1 := set_term (set_leader (step_down n t) (Some lead)) t).
   assert (R1 : rep_same n n1).
   { eapply rep_same_trans; [apply (step_down_rep n t)|]. unfold n1. generalize (step_down n t). intros m. destruct m; rep_simpl. }
   match goal with |- context [negb ?c] => destruct c eqn:Cons end; cbn [negb fst snd].
-  2:{ right. split; [exact R1|split; [noars|noae]]. }
+  2:{ right. split; [exact R1|split; [noars|split; [noae|]]]. intros R.
+      assert (role n1 = Follower) by (unfold n1; pose proof (proj1 (step_down_fields n t)) as X; revert X; generalize (step_down n t); intros m X; destruct m; exact X).
+      congruence. }
   left. split; [exact Ep|]. split; [lia|]. intros Hp.
   replace (pli >? 0) with true in Cons by lia. destruct R1 as (L1 & _).
   unfold log_get in Cons. destruct ((pli <? 1) || (pli >? zlen (log n1))) eqn:Er; [discriminate|].
